@@ -73,16 +73,17 @@ Record sys := mkSys {
   sy_running : list string;
   sy_results : list (string * outcome);  (* finished, waiting in the result queue (FIFO) *)
   sy_starts : list (string * gtime * task);   (* monotone history: every work-function start *)
-  sy_reports : list string                 (* monotone history: ids reported as TaskDone *)
+  sy_reports : list string;                (* monotone history: ids reported as TaskDone *)
+  sy_retry : option sstate                 (* the error state the driver may hand to Retry (driver discipline) *)
 }.
-Definition sys_init : sys := mkSys hs_init (T 0 true) None false PIdle [] [] [] [] [].
+Definition sys_init : sys := mkSys hs_init (T 0 true) None false PIdle [] [] [] [] [] None.
 
 Definition set_h (s : sys) (h : hstate) : sys :=
-  mkSys h (sy_now s) (sy_last s) (sy_err s) (sy_pc s) (sy_accepted s) (sy_running s) (sy_results s) (sy_starts s) (sy_reports s).
+  mkSys h (sy_now s) (sy_last s) (sy_err s) (sy_pc s) (sy_accepted s) (sy_running s) (sy_results s) (sy_starts s) (sy_reports s) (sy_retry s).
 Definition set_pc (s : sys) (pc : spc) : sys :=
-  mkSys (sy_h s) (sy_now s) (sy_last s) (sy_err s) pc (sy_accepted s) (sy_running s) (sy_results s) (sy_starts s) (sy_reports s).
+  mkSys (sy_h s) (sy_now s) (sy_last s) (sy_err s) pc (sy_accepted s) (sy_running s) (sy_results s) (sy_starts s) (sy_reports s) (sy_retry s).
 Definition set_sched (s : sys) (last : option task) (e : bool) (pc : spc) : sys :=
-  mkSys (sy_h s) (sy_now s) last e pc (sy_accepted s) (sy_running s) (sy_results s) (sy_starts s) (sy_reports s).
+  mkSys (sy_h s) (sy_now s) last e pc (sy_accepted s) (sy_running s) (sy_results s) (sy_starts s) (sy_reports s) (sy_retry s).
 
 Definition outcome_err (o : outcome) : option string :=
   match o with
@@ -146,7 +147,7 @@ Fixpoint str_del (id : string) (l : list string) : list string :=
 (* what dispatchTask does after a successful fetch: the worker holds the task, Step returns Dispatched *)
 Definition accept_task (s : sys) (t : task) : sys :=
   mkSys (sy_h s) (sy_now s) (sy_last s) (sy_err s) (PEnd (SDispatched (t_id t)) false)
-        (sy_accepted s ++ [(t_id t, t)]) (sy_running s) (sy_results s) (sy_starts s) (sy_reports s).
+        (sy_accepted s ++ [(t_id t, t)]) (sy_running s) (sy_results s) (sy_starts s) (sy_reports s) (sy_retry s).
 
 Definition is_err_res (r : res) : bool := match r with RErr _ => true | _ => false end.
 Definition is_def_error (r : res) : bool :=
@@ -154,6 +155,7 @@ Definition is_def_error (r : res) : bool :=
   match r with RErr EOther | RErr ECtx => false | RErr _ => true | _ => false end.
 
 Definition sys_step (sc : scfg) (hc : hcfg) (s : sys) (l : slabel) : option sys :=
+  let s0 := s in
   let h := sy_h s in
   let now := sy_now s in
   match l with
@@ -167,11 +169,19 @@ Definition sys_step (sc : scfg) (hc : hcfg) (s : sys) (l : slabel) : option sys 
   | LAdvance n =>
     if inst now <=? inst n
     then Some (mkSys (mkHS (hs_repo h) (hs_hook h) (tm_fire (hs_timer h) (inst n))) n (sy_last s) (sy_err s) (sy_pc s)
-                     (sy_accepted s) (sy_running s) (sy_results s) (sy_starts s) (sy_reports s))
+                     (sy_accepted s) (sy_running s) (sy_results s) (sy_starts s) (sy_reports s) (sy_retry s))
     else None
-  | LStepBegin => match sy_pc s with PIdle => Some (set_pc s PStep0) | _ => None end
-  | LRetryBegin prev =>
+  | LStepBegin =>
     match sy_pc s with
+    | PIdle => Some (mkSys h now (sy_last s) (sy_err s) PStep0 (sy_accepted s) (sy_running s) (sy_results s)
+                           (sy_starts s) (sy_reports s) None)
+    | _ => None
+    end
+  | LRetryBegin prev =>
+    (* driver discipline: Retry gets the error state that was just returned, once *)
+    let s := mkSys h now (sy_last s) (sy_err s) (sy_pc s) (sy_accepted s) (sy_running s) (sy_results s)
+                   (sy_starts s) (sy_reports s) None in
+    match (if match sy_retry s0 with Some p => sstate_eqb p prev | None => false end then sy_pc s else PEnd SNone false) with
     | PIdle =>
       match prev with
       | STimerUpdateError => Some (set_pc s (PRestart1 KRetry))
@@ -186,14 +196,21 @@ Definition sys_step (sc : scfg) (hc : hcfg) (s : sys) (l : slabel) : option sys 
     | PEnd st' re' =>
       if sstate_eqb st st' && Bool.eqb re re'
       then Some (mkSys h now (sy_last s) (sy_err s) PIdle (sy_accepted s) (sy_running s) (sy_results s) (sy_starts s)
-                       (match st' with STaskDone id _ _ => id :: sy_reports s | _ => sy_reports s end))
+                       (match st' with STaskDone id _ _ => id :: sy_reports s | _ => sy_reports s end)
+                       (* an error state may be handed to Retry next *)
+                       (if match st' with
+                           | STimerUpdateError | SDispatchErr _ => true
+                           | SNextTask ok _ => negb ok
+                           | STaskDone _ _ u => u
+                           | _ => false
+                           end then Some st' else None))
       else None
     | PSelect =>
       (* select took the result branch for a run that ended by cancellation: no repository call *)
       match st, sy_results s with
       | STaskDone id OCanceled false, (id', OCanceled) :: rest =>
         if String.eqb id id' && negb re
-        then Some (mkSys h now (sy_last s) (sy_err s) PIdle (sy_accepted s) (sy_running s) rest (sy_starts s) (id :: sy_reports s))
+        then Some (mkSys h now (sy_last s) (sy_err s) PIdle (sy_accepted s) (sy_running s) rest (sy_starts s) (id :: sy_reports s) None)
         else None
       | _, _ => None
       end
@@ -205,7 +222,7 @@ Definition sys_step (sc : scfg) (hc : hcfg) (s : sys) (l : slabel) : option sys 
       (* the work function sees the task the fetcher read *)
       if gtime_eqb n now && task_eqb snap t
       then Some (mkSys h now (sy_last s) (sy_err s) (sy_pc s) (remove_first id (sy_accepted s)) (id :: sy_running s)
-                       (sy_results s) ((id, n, snap) :: sy_starts s) (sy_reports s))
+                       (sy_results s) ((id, n, snap) :: sy_starts s) (sy_reports s) (sy_retry s))
       else None
     | None => None
     end
@@ -225,13 +242,13 @@ Definition sys_step (sc : scfg) (hc : hcfg) (s : sys) (l : slabel) : option sys 
   | LWorkEnd id o =>
     if str_mem id (sy_running s)
     then Some (mkSys h now (sy_last s) (sy_err s) (sy_pc s) (sy_accepted s) (str_del id (sy_running s))
-                     (sy_results s ++ [(id, o)]) (sy_starts s) (sy_reports s))
+                     (sy_results s ++ [(id, o)]) (sy_starts s) (sy_reports s) (sy_retry s))
     else
       (* unknown work id: the worker reports without ever starting a work function *)
       match o, find (fun x => String.eqb (fst x) id) (sy_accepted s) with
       | ONotFound, Some _ =>
         Some (mkSys h now (sy_last s) (sy_err s) (sy_pc s) (remove_first id (sy_accepted s)) (sy_running s)
-                    (sy_results s ++ [(id, o)]) (sy_starts s) (sy_reports s))
+                    (sy_results s ++ [(id, o)]) (sy_starts s) (sy_reports s) (sy_retry s))
       | _, _ => None
       end
   | LCall c f hf r =>
@@ -318,7 +335,7 @@ Definition sys_step (sc : scfg) (hc : hcfg) (s : sys) (l : slabel) : option sys 
           let (h', x) := call_mark_done f now id e h in
           if cret_eqb r (RRes x)
           then Some (mkSys h' now (sy_last s) (sy_err s) (PEnd (STaskDone id o (is_err_res x)) false) (sy_accepted s)
-                           (sy_running s) rest (sy_starts s) (sy_reports s))
+                           (sy_running s) rest (sy_starts s) (sy_reports s) (sy_retry s))
           else None
         else None
       | [] => None
